@@ -539,6 +539,73 @@ pub fn error_variant(e: &TickPatchError) -> &'static str {
     }
 }
 
+/// Class of a typed replay error in terms of what changed (a → b) at the element the error names:
+/// e.g. `node-delete-with-incident-edges+incident-edge-retarget` for `NodeNotIsolated(n1)`,
+/// `edge-reparent+portal-kept` for a `PortalInvariantViolation`.
+pub fn typed_error_class(u: &Universe, a: &RefState, b: &RefState, e: &TickPatchError) -> String {
+    let wix = |w: &warp_core::WarpId| u.warps.iter().position(|x| x == w).map(|i| i as u8);
+    let nix = |n: &warp_core::NodeId| u.nodes.iter().position(|x| x == n).map(|i| i as u8);
+    let eix = |x: &warp_core::EdgeId| u.edges.iter().position(|y| y == x).map(|i| i as u8);
+    match e {
+        TickPatchError::NodeNotIsolated(k) => match (wix(&k.warp_id), nix(&k.local_id)) {
+            (Some(w), Some(n)) => {
+                let mut parts: BTreeSet<String> = BTreeSet::new();
+                for ((ew, ee), rec) in &a.edges {
+                    if *ew == w && (rec.from == n || rec.to == n) {
+                        parts.insert(format!("incident-{}", edge_change(a, b, *ew, *ee).0));
+                    }
+                }
+                let mut s = node_change(a, b, w, n);
+                for p in parts {
+                    s.push('+');
+                    s.push_str(&p);
+                }
+                s
+            }
+            _ => "unknown-node".into(),
+        },
+        TickPatchError::MissingNode(k) => match (wix(&k.warp_id), nix(&k.local_id)) {
+            (Some(w), Some(n)) => format!("{}{}", node_change(a, b, w, n), inst_ctx(a, b, w)),
+            _ => "unknown-node".into(),
+        },
+        TickPatchError::MissingEdge(k) => match (wix(&k.warp_id), eix(&k.local_id)) {
+            (Some(w), Some(x)) => format!("{}{}", edge_change(a, b, w, x).0, inst_ctx(a, b, w)),
+            _ => "unknown-edge".into(),
+        },
+        TickPatchError::MissingWarp(w) => match wix(w) {
+            Some(w) => inst_change(a, b, w),
+            None => "unknown-warp".into(),
+        },
+        TickPatchError::PortalInvariantViolation => {
+            // portal slots that changed; those whose *owner* changed are the primary suspects
+            let mut changed: BTreeSet<String> = BTreeSet::new();
+            let mut primary: BTreeSet<String> = BTreeSet::new();
+            let slots: BTreeSet<RefSlot> = a.atts.keys().chain(b.atts.keys()).copied().collect();
+            for s in slots {
+                if matches!(a.atts.get(&s), Some(RefAtt::Descend(_)))
+                    || matches!(b.atts.get(&s), Some(RefAtt::Descend(_)))
+                {
+                    let c = slot_change(a, b, s);
+                    if c.starts_with("node-kept+portal-kept") || c.starts_with("edge-kept+portal-kept") {
+                        continue;
+                    }
+                    if !(c.starts_with("node-kept") || c.starts_with("edge-kept")) {
+                        primary.insert(c.clone());
+                    }
+                    changed.insert(c);
+                }
+            }
+            let pick = if primary.is_empty() { changed } else { primary };
+            if pick.is_empty() {
+                "no-portal-slot-changed".into()
+            } else {
+                pick.into_iter().collect::<Vec<_>>().join("&")
+            }
+        }
+        _ => String::new(),
+    }
+}
+
 pub fn op_kind(op: &WarpOp) -> &'static str {
     match op {
         WarpOp::OpenPortal { .. } => "OpenPortal",
@@ -588,8 +655,8 @@ pub fn op_kind_bits(ops: &[WarpOp]) -> u8 {
 pub enum Verdict {
     /// `Ok(())`, the store is coherent, equals `b` and has `b`'s state root.
     Exact,
-    /// `Err(typed)`.
-    Typed(&'static str),
+    /// `Err(typed)`: variant name and the error itself.
+    Typed(&'static str, TickPatchError),
     /// Violation signatures (already prefixed with the phase); the flag says whether the state
     /// root of the replayed state nevertheless equals the target's root.
     Bad(Vec<String>, bool),
@@ -684,7 +751,7 @@ pub fn apply_and_judge(
             ),
             None,
         ),
-        Ok(Err(e)) => (Verdict::Typed(error_variant(&e)), None),
+        Ok(Err(e)) => (Verdict::Typed(error_variant(&e), e), None),
         Ok(Ok(())) => {
             let verdict = match u.coherent(&st) {
                 Err(msg) => {
